@@ -236,8 +236,15 @@ class MultiTierCache(Entity):
                 if hasattr(tier, "invalidate"):
                     tier.invalidate(key)
 
-            # Write to L1
-            yield from self._tiers[0].put(key, value)
+            # Install in L1. The backing store already holds the value: going
+            # through the tier's own put() would write it to the backing store
+            # a second time one write latency later, which lets the older of
+            # two overlapping puts overwrite the newer one there.
+            l1 = self._tiers[0]
+            if hasattr(l1, "_cache_put"):
+                l1._cache_put(key, value)
+            else:
+                yield from l1.put(key, value)
 
     def delete(self, key: str) -> Generator[float, None, bool]:
         """Delete a key from all tiers and backing store.
